@@ -146,26 +146,30 @@ def run(spec, tier, seed, t0):
         raise C.CheckError("in-Coq evaluation disagrees with the extracted checker: %s %s" % (d1, d2))
 
     # monitor verdicts whose clause code is a recorded known finding of this property (read-only list)
-    known = {f["code"]: f for f in C.load_known().get("findings", []) if f.get("property") == P and "code" in f}
+    TG = (getattr(spec, "stage_tag", "") + "-") if getattr(spec, "stage_tag", "") else ""
+    KP = getattr(spec, "known_prop", None) or P     # a stage that reuses another property's monitor uses that property's list
+    known = {f["code"]: f for f in C.load_known().get("findings", []) if f.get("property") == KP and "code" in f}
     known_hits = {}
     for i, v in enumerate(v_mon):
         if v is not None and len(v) >= 3 and v[1] == 906 and v[2] in known:
             known_hits.setdefault(v[2], []).append(i)
             v_mon[i] = None
     for code, idxs in known_hits.items():
+        if KP != P:
+            continue        # reported by the check of the property the finding belongs to
         print("KNOWN-FINDING: property=%s %s (seen in %d of %d cases this run)" % (P, known[code]["what"], len(idxs), len(lines)))
     mon_fail = [i for i, v in enumerate(v_mon) if v is not None]
     cor_fail = [i for i, v in enumerate(v_model) if v is not None]
     violations = 0
     rc = 0
     if not ob["ok"]:
-        p = C.write_replay(P, "obligation", "property: %s\nkind: obligation\nfailing: %s\n%s\n" % (P, ob["problems"], ob["out"][-3000:]))
+        p = C.write_replay(P, TG + "obligation", "property: %s\nkind: obligation\nfailing: %s\n%s\n" % (P, ob["problems"], ob["out"][-3000:]))
         C.violation(P, p, no_input=True)
         violations += 1
         rc = 1
     if mon_fail:
         small, v = shrink(spec, lines[mon_fail[0]], spec.monitor_fn[0])
-        p = C.write_replay(P, "monitor-%d" % seed, spec.describe(small, v, "monitor (the implementation's trace violates the property)"))
+        p = C.write_replay(P, TG + "monitor-%d" % seed, spec.describe(small, v, "monitor (the implementation's trace violates the property)"))
         C.violation(P, p)
         violations += len(mon_fail)
         rc = 1
@@ -177,13 +181,13 @@ def run(spec, tier, seed, t0):
         hit = [j for j, v in enumerate(v2) if v is not None]
         if hit:
             small, v = shrink(spec, extra[hit[0]], spec.monitor_fn[0])
-            p = C.write_replay(P, "monitor-%d" % seed, spec.describe(small, v, "monitor (found by targeted search after a correspondence mismatch)"))
+            p = C.write_replay(P, TG + "monitor-%d" % seed, spec.describe(small, v, "monitor (found by targeted search after a correspondence mismatch)"))
             C.violation(P, p)
         else:
             small, v = shrink(spec, lines[cor_fail[0]], spec.model_fn[0])
             body = spec.describe(small, v, "correspondence")
             body += "no-longer-checked: %s\n" % spec.no_longer_checked
-            p = C.write_replay(P, "correspondence-%d" % seed, body)
+            p = C.write_replay(P, TG + "correspondence-%d" % seed, body)
             C.violation(P, p, no_input=True)
         for f in (extra_path, stats_path + ".search"):
             if os.path.exists(f):
